@@ -163,7 +163,9 @@ class ReconfDomain(Domain):
             it = state.get("#iterating", None)
             st = state
             if it == "snapshot" and args and args[0] == Opaque("snapshot-elem"):
-                st = st.set("#hasher_clean", True)
+                # this old node is out of the hasher now (removed, or - ValueError - it already was); the hasher is
+                # clean once the loop has gone through *all* old nodes, i.e. when it is exhausted (see for_exhausted)
+                st = st.set("#elem_removed", True)
             return [("ok", NONE, st), ("exc", Exc(ORD, "ValueError", node.lineno), st)]
         if name in ("self.hasher.nodes.clear",):
             return [("ok", NONE, state.set("#hasher_clean", True))]
@@ -211,6 +213,9 @@ class ReconfDomain(Domain):
     def for_exhausted(self, node, itval, state):
         if isinstance(itval, Opaque) and (itval.tag.startswith("snapshot") or itval.tag == "advertised") and not state.get(("visited", node.lineno), False):
             return None
+        if isinstance(itval, Opaque) and itval.tag in ("snapshot", "snapshot-keys", "snapshot-items") and state.get("#elem_removed", False):
+            # every old node was visited and taken out (an exception that leaves the loop does not come through here)
+            state = state.set("#hasher_clean", True)
         return state.drop("#iterating") if state.has("#iterating") else state
 
     def assume(self, expr, value, branch, state):
